@@ -10,6 +10,7 @@ import (
 	"fmt"
 	"io"
 	"log/slog"
+	"net/http"
 	"sort"
 	"strings"
 	"sync"
@@ -84,6 +85,9 @@ type c18Case struct {
 	History  string     `json:"history,omitempty"` // "" = one run, move = run, move source tags, run again
 	App2     bool       `json:"app2,omitempty"`    // source registry also holds proj/app2 (repos-filter cases)
 	CatPage  int        `json:"cat_page,omitempty"` // the source hands out its catalogue in pages of this size; it then also holds aaa/first and zzz/last
+	// Fault: a lasting refusal. "tgt-refuses:<tag>": the target answers 403 to every manifest PUT of
+	// that tag; "src-blob-gone": the source answers 404 to every blob GET (manifests are served)
+	Fault string `json:"fault,omitempty"`
 	CLI      bool       `json:"cli,omitempty"`     // replay through the command-line route
 }
 
@@ -122,6 +126,12 @@ func (c c18Case) String() string {
 	f := ""
 	if c.TgtFeat != "" {
 		f = " tgtfeat=" + c.TgtFeat
+	}
+	if c.CatPage > 0 {
+		f += fmt.Sprintf(" catalog-page=%d", c.CatPage)
+	}
+	if c.Fault != "" {
+		f += " fault=" + c.Fault
 	}
 	return fmt.Sprintf("[%s] %s | action=%s parallel=%d src=%s tgt=%s%s history=%s", c.Block, strings.Join(es, " ; "), c.Action, c.Parallel, c.Src, c.Tgt, f, h)
 }
@@ -446,6 +456,14 @@ func c18NewWorld(c c18Case) *c18World {
 
 // observe records tag PUTs at the target together with the backup names' state at that instant.
 func (w *c18World) observe(e *modelreg.Entry) *modelreg.Answer {
+	if f := w.c.Fault; f != "" {
+		if tg, ok := strings.CutPrefix(f, "tgt-refuses:"); ok && e.Host == c18TgtHost && e.Kind == "manifest-put" && e.Ref == tg {
+			return &modelreg.Answer{Status: 403, Header: http.Header{}, Body: []byte(`{"errors":[{"code":"DENIED"}]}`), Note: "fault-" + f}
+		}
+		if f == "src-blob-gone" && e.Host == c18SrcHost && e.Kind == "blob-get" && e.Method == "GET" {
+			return &modelreg.Answer{Status: 404, Header: http.Header{}, Body: []byte(`{"errors":[{"code":"BLOB_UNKNOWN"}]}`), Note: "fault-" + f}
+		}
+	}
 	if e.Host != c18TgtHost || e.Kind != "manifest-put" || strings.Contains(e.Ref, ":") {
 		return nil
 	}
